@@ -68,24 +68,104 @@ COMMENTED = [comment(1, 'one'), comment({'k': comment([1, 2], 'inner')}, 'two wo
 SCENARIOS = {
     'S1-uuid-first-use': ([[(U, {})], [(U, {})]], (PKG,), False),
     'S1-uuid-nested': ([[([U], {})], [({'k': U}, {})]], (PKG,), False),
-    'S2-enum-and-uuid': ([[(Color.RED, {})], [({'k': U}, {})]], (PKG,), False),
+    'S2-enum-and-uuid': ([[(Color.RED, {})], [({'k': U}, {})]], (PKG,) + STDLIB_FILES, False),
     'S3-subclass-dispatch-vs-registration': ([[(MyList([1, 2]), {})], [(U, {})]], (PKG,) + STDLIB_FILES, False),
     'S4-struct-sequences': ([[(time.gmtime(0), {})], [(time.gmtime(86400), {})]], (PKG,), False),
     'S5-warm-comments-and-strings': ([[(COMMENTED, {'width': 30}), (LONG, {'width': 40})], [(LONG, {'width': 40}), (COMMENTED, {'width': 30})]], (PKG,), True),
-    'S7-deferred-class-and-subclass': ([[(Sub(2), {})], [(Base(3), {})]], (PKG,), False),
+    'S7-deferred-class-and-subclass': ([[(Sub(2), {})], [(Base(3), {})]], (PKG,) + STDLIB_FILES, False),
     'S8-paths-through-superclass': ([[(pathlib.PurePosixPath('/a/b'), {})], [([pathlib.PureWindowsPath('C:/x')], {})]], (PKG,), False),
     'S6-three-threads': ([[(U, {})], [(Color.RED, {}), ([U], {})], [(MyList([Color.RED]), {})]], (PKG,), False),
 }
+
+
+class Late:
+    def __init__(self, x):
+        self.x = x
+
+    def __repr__(self):
+        return '<Late %d>' % self.x
+
+
+class LateSub(Late):
+    pass
+
+
+class Pred:
+    def __repr__(self):
+        return '<Pred>'
+
+
+def _register_late():
+    @register_pretty(Late)
+    def pretty_late(v, ctx):
+        return prettyprinter.pretty_call(ctx, type(v), v.x)
+    return 'registered'
+
+
+def _register_pred():
+    @register_pretty(predicate=lambda v: isinstance(v, Pred))
+    def pretty_pred(v, ctx):
+        return 'Pred()'
+    return 'registered'
+
+
+def _narrow_defaults():
+    prettyprinter.set_default_config(width=20, sort_dict_keys=True)
+    return 'set'
+
+
+def _replace_uuid_printer():
+    @register_pretty(uuid.UUID)
+    def short_uuid(v, ctx):
+        return 'uuid:' + v.hex[:8]
+    return 'registered'
+
+
+WIDE = {'b': [1, 2, 3, 4, 5, 6], 'a': 'some text here'}
+SCENARIOS.update({
+    'S9-user-registers-class-while-other-prints-subclass': ([[('call', _register_late), (Late(1), {})], [(LateSub(2), {}), ([LateSub(3)], {})]], (PKG,) + STDLIB_FILES, False),
+    'S10-user-registers-predicate-while-other-prints': ([[('call', _register_pred), (Pred(), {})], [([Pred()], {}), (U, {})]], (PKG,), False),
+    'S14-user-replaces-a-printer-then-prints': ([[(U, {})], [('call', _replace_uuid_printer), (U, {}), ([U], {})]], (PKG,), False),
+    'S13-set-default-config-while-other-prints': ([[('call', _narrow_defaults), (WIDE, {})], [(WIDE, {}), (WIDE, {})]], (PKG,), False),
+})
 SHARED_STATE_FUNCS = {'is_registered', 'register_pretty', 'register_pretty.<locals>.decorator', 'pretty_python_value', '_is_registered',
                       'singledispatch.<locals>.dispatch', 'singledispatch.<locals>.register', 'singledispatch.<locals>.wrapper', '_find_impl', '_compose_mro'}
 
 
-def run_program(prog, out):
-    for value, cfg in prog:
-        try:
+def run_item(item, out):
+    try:
+        if item[0] == 'call':
+            out.append(('ok', repr(item[1]())))
+        else:
+            value, cfg = item
             out.append(('ok', prettyprinter.pformat(value, **cfg)))
-        except Exception as e:
-            out.append(('exc', '%s: %s' % (type(e).__name__, e)))
+    except Exception as e:
+        out.append(('exc', '%s: %s' % (type(e).__name__, e)))
+
+
+CHECKPOINT = [None]
+
+
+def run_program(prog, out):
+    for j, item in enumerate(prog):
+        run_item(item, out)
+        if CHECKPOINT[0] is not None:
+            CHECKPOINT[0](j + 1)
+
+
+def call_orders(progs):
+    """all sequential orders of the individual calls (interleavings that keep each thread's own order)"""
+    def rec(pos):
+        if all(pos[i] == len(progs[i]) for i in range(len(progs))):
+            yield ()
+            return
+        for i in range(len(progs)):
+            if pos[i] < len(progs[i]):
+                nxt = list(pos)
+                nxt[i] += 1
+                for rest in rec(nxt):
+                    yield ((i, pos[i]),) + rest
+    return list(rec([0] * len(progs)))
 
 
 COOP = []
@@ -126,14 +206,17 @@ def schedule_child(arg):
         policy = sched.PreemptAt({(a, k): t for a, k, t in spec[1]})
     elif kind == 'infunc':
         policy = sched.PreemptInFunctions(spec[1], spec[2], SHARED_STATE_FUNCS, spec[3])
+    elif kind == 'at+call':
+        policy = sched.PreemptThenReturnAtCall(spec[1], spec[2], spec[3], spec[4])
     elif kind == 'random':
         policy = sched.RandomPriority(V.rng_for('c20pct', spec[1]), len(progs), spec[2], spec[3])
     s = sched.Scheduler(files, policy, watchdog=20.0)
+    CHECKPOINT[0] = s.checkpoint
     nlocks = install_coop_locks(s)
     outs = [[] for _ in progs]
     for i, prog in enumerate(progs):
         s.add(lambda prog=prog, out=outs[i]: run_program(prog, out))
-    first = spec[-1] if kind in ('none',) else (spec[1][0][0] if kind == 'at' else (spec[1] if kind == 'infunc' else 0))
+    first = spec[-1] if kind in ('none',) else (spec[1][0][0] if kind == 'at' else (spec[1] if kind in ('infunc', 'at+call') else 0))
     ok = s.run(first=first)
     ws = M.take_warnings()
     return {'ok': ok, 'stuck': s.stuck, 'deadlock': s.deadlock, 'results': outs, 'steps': list(s.steps), 'switches': s.switches[:20],
@@ -150,8 +233,8 @@ def sequential_child(arg):
             run_program(prog, [])
     M.take_warnings()
     outs = [[] for _ in progs]
-    for i in order:
-        run_program(progs[i], outs[i])
+    for i, j in order:
+        run_item(progs[i][j], outs[i])
     return outs, [w[1][:300] for w in M.take_warnings()]
 
 
@@ -228,7 +311,10 @@ def run_shard(sh):
     for name in names:
         progs = SCENARIOS[name][0]
         refs[name], refw[name] = [], []
-        for order in itertools.permutations(range(len(progs))):
+        orders = call_orders(progs)
+        if len(orders) > 40:
+            orders = orders[:20] + orders[-20:]
+        for order in orders:
             status, r = fork_call(sequential_child, (name, order), timeout=120)
             if status != 'ok':
                 sh.inconclusive.append('sequential reference %s: %s %s' % (name, status, str(r)[:200]))
@@ -255,15 +341,22 @@ def run_shard(sh):
                 others = [b for b in range(len(progs)) if b != a]
                 if len(progs) == 2:
                     # quick: the two long scenarios that touch no registry state on first use are sampled 1:6
-                    stride = 6 if quick and name.startswith(('S4', 'S5')) else 1
+                    stride = 12 if quick and name.startswith(('S4', 'S5')) else (4 if quick and name.startswith(('S9', 'S10', 'S13', 'S14')) else 1)
                     for k in range(1, n_a + 1, stride):
                         jobs.append((name, ('at', [(a, k, others[0])]), fs))
                 else:
                     for k in range(1, n_a + 1, 7 if quick else 2):
                         jobs.append((name, ('at', [(a, k, others[k % len(others)])]), fs))
+                # A preempted at every k, B switched back at each of its call boundaries (catches A's delayed writes that
+                # only a LATER call of B can observe)
+                if len(progs) == 2 and len(progs[others[0]]) > 1:
+                    stride2 = (40 if name.startswith('S5') else 5) if quick else 1
+                    for jb in range(1, len(progs[others[0]])):
+                        for k in range(1, n_a + 1, stride2):
+                            jobs.append((name, ('at+call', a, k, others[0], jb), fs))
                 # two preemptions: A preempted at k1, B preempted the n-th time it is inside a registry function
                 if len(progs) == 2:
-                    k1s = range(1, n_a + 1, 90 if quick else 6)
+                    k1s = range(1, n_a + 1, 150 if quick else 6)
                     for k1 in k1s:
                         for nth in (range(1, 40, 9) if quick else range(1, 120, 2)):
                             jobs.append((name, ('at+infunc', a, k1, others[0], nth), fs))
@@ -357,7 +450,8 @@ def stress_child(arg):
 
 def run_stress(sh, refs):
     quick = sh.tier == 'quick'
-    names = [n for n in SCENARIOS if len(SCENARIOS[n][0]) == 2]
+    # only scenarios whose results do not depend on the order of the calls (one sequential outcome)
+    names = [n for n in SCENARIOS if len(SCENARIOS[n][0]) == 2 and len(refs.get(n, ())) == 1]
     for i in range(160 if quick else 4000):
         if not sh.mine(i):
             continue
@@ -402,7 +496,7 @@ def replay(wit):
         fs = tuple(spec[-1])
         spec = spec[:-1]
     refs = []
-    for order in itertools.permutations(range(len(SCENARIOS[name][0]))):
+    for order in call_orders(SCENARIOS[name][0]):
         st, r = fork_call(sequential_child, (name, order), timeout=120)
         if st == 'ok' and r[0] not in refs:
             refs.append(r[0])
